@@ -25,7 +25,7 @@ LEVEL = "exploration"
 RULE = (
     "(a) Hypothesis draws C04-style configurations (incl. large ftol with a reachable target, gradient scaler, stopping callback) and compares the run with an identity update function to the run without, "
     "bitwise on all result fields incl. message and on the evaluation log. (b) draws a run and an update-invocation index j at which the update function switches the objective to f_B in "
-    "{s*f, f + lam/2 |x-c|^2 (re-weighted regulariser), f - lam/2 |x-c|^2 and per-coordinate negative shifts that break curvature for a subset of pairs}; checks the pairs of every later state "
+    "{s*f, f + lam/2 |x-c|^2 (re-weighted regulariser), f - lam/2 |x-c|^2 and per-coordinate negative shifts that break curvature for a subset of pairs}, the rewritten gradients being returned either as a new deque or written into the deque that was passed (same object returned); checks the pairs of every later state "
     "(exact differences of rewritten gradients, curvature, newest stored point retained) and the next iterate against a restart on f_B from the callback state of iteration j. "
     "non-trivial = the rewrite drops >=1 but not all pairs, or the newest pair is rejected after the rewrite, or (a) both a target and ftol were within reach; distinct = distinct spec"
 )
@@ -69,30 +69,69 @@ def make_objB(prob, sw):
     return Shifted(prob.obj, sw["scale"], lam, sw["c"])
 
 
+def numerical_breakdown_gate(tr, stats=None):
+    """A switched objective may be unbounded below / flat along a direction (that is what "rewrites that
+    break curvature" means), the iterates then run away, curvature pairs are accepted on rounding noise and a
+    Cholesky factorisation inside the solver can break down.  The port has no memory-refresh fallback for
+    that (observation recorded in DESIGN 11.3; no listed property covers it), so such an exception is not
+    judged here -- unless a state the harness has seen carries a pair that violates the curvature
+    condition, which is exactly what this property forbids."""
+    e = tr.exc
+    is_numeric = isinstance(e, (np.linalg.LinAlgError, FloatingPointError, ZeroDivisionError)) or (
+        isinstance(e, ValueError) and ("infs or NaNs" in str(e) or "NaN" in str(e)))
+    if not is_numeric:
+        return
+    for c in tr.cb:
+        sk, yk = c["snap"]["sk"], c["snap"]["yk"]
+        for j in range(sk.shape[0]):
+            sty, yty = float(sk[j] @ yk[j]), float(yk[j] @ yk[j])
+            if not sty > 2.2e-16 * yty:
+                raise Violation("rewritten-pairs:curvature-condition",
+                                f"state nit={c['snap']['nit']} carries a pair with s.y={sty!r} (y.y={yty!r}); the run later raised {type(e).__name__}")
+    if stats is not None:
+        stats.bump("numerical-breakdown-not-judged:" + type(e).__name__)
+    raise Discard("numerical breakdown of the memory matrix after the redefinition (" + type(e).__name__ + ")")
+
+
+def make_switch_update(prob, sw, info):
+    """The update function used by C13 / C18 / C10: at invocation sw['at'] the harness's closures switch
+    to f_B and the stored gradients are rewritten -- either into a new deque or, when sw['inplace'],
+    by assigning into the deque that was passed and returning that same object (both are legal ways
+    of "returning the updated gradient sequence")."""
+    objB = make_objB(prob, sw)
+    j = sw["at"]
+
+    def upd(i, x, f0, f0_old, grad, X, G, tr):
+        if i == j:
+            tr.holder["obj"] = objB
+            info["npairs_before"] = max(len(X) - 1, 0)
+            info["ncb"] = len(tr.cb)  # the callback of the switching iteration is the next one to fire
+            info["X_last"] = np.array(X[-1], copy=True) if len(X) else None
+            f0n = float(objB.f(x))
+            if sw.get("inplace"):
+                for k, xi in enumerate(X):
+                    G[k] = np.array(objB.g(xi))
+                newG = G
+            else:
+                newG = deque(np.array(objB.g(xi)) for xi in X)
+            return f0n, f0n + 1.0 + abs(f0n), np.array(objB.g(x)), newG
+        return f0, f0_old, grad, G
+
+    return upd, objB
+
+
 def check_switch(spec, stats=None):
     rspec = spec["run"]
     prob = build(rspec["problem"])
     cfg = dict(rspec["cfg"])
     sw = spec["switch"]
     j = sw["at"]
-    objB = make_objB(prob, sw)
     info = {}
-
-    def upd(i, x, f0, f0_old, grad, X, G, tr):
-        if i == j:
-            tr.holder["obj"] = objB
-            newG = deque(np.array(objB.g(xi)) for xi in X)
-            f0n = float(objB.f(x))
-            info["npairs_before"] = max(len(X) - 1, 0)
-            info["ncb"] = len(tr.cb)  # the callback of the switching iteration is the next one to fire
-            info["X_last"] = np.array(X[-1], copy=True) if len(X) else None
-            return f0n, f0n + 1.0 + abs(f0n), np.array(objB.g(x)), newG
-        return f0, f0_old, grad, G
+    upd, objB = make_switch_update(prob, sw, info)
 
     tr = run_min(prob, cfg, callback="passive", update_fun_def=upd)
     if tr.exc is not None:
-        if isinstance(tr.exc, (FloatingPointError,)):
-            raise Discard("diverged")
+        numerical_breakdown_gate(tr, stats)
         raise tr.exc
     if len(tr.upd_calls) <= j:
         if stats is not None:
@@ -172,7 +211,7 @@ def check_switch(spec, stats=None):
                 newest_rejected = True
         nt = bool(dropped and n_after and n_after >= 1 and dropped >= 1) or newest_rejected
         stats.case(spec, nt, ["kind=switch", f"at={'0' if sw['at'] == 0 else '1-3' if sw['at'] <= 3 else '4+'}", f"compared={compared}", f"newest_rejected={newest_rejected}",
-                              f"dropped={'?' if dropped is False or dropped is None else min(int(dropped), 3)}", f"variant={sw['variant']}"],
+                              f"dropped={'?' if dropped is False or dropped is None else min(int(dropped), 3)}", f"variant={sw['variant']}", f"inplace={bool(sw.get('inplace'))}"],
                    sample={"family": rspec["problem"]["obj"]["family"], "switch": sw, "pairs_before": nb, "pairs_after": n_after, "compared_next_iterate": compared})
 
 
@@ -193,7 +232,7 @@ def switch_strategy(draw):
         scale = 1.0
         lam = [(-draw(loggrid(0, 3, 12)) if draw(st.booleans()) else 0.0) for _ in range(n)]
     at = draw(st.integers(0, max(0, r["cfg"]["maxiter"] - 1)))
-    return {"run": r, "switch": {"at": at, "variant": variant, "scale": scale, "lam": lam, "c": c}}
+    return {"run": r, "switch": {"at": at, "variant": variant, "scale": scale, "lam": lam, "c": c, "inplace": draw(st.booleans())}}
 
 
 def shard(ctx):
